@@ -17,7 +17,7 @@ from concurrent.futures import ThreadPoolExecutor
 
 VERIF = os.path.dirname(os.path.dirname(os.path.abspath(__file__)))
 REPO = os.environ.get("HGV_REPO", "/repo")
-BUILD = os.path.join(VERIF, "build")
+BUILD = os.environ.get("HGV_BUILD", os.path.join(VERIF, "build"))   # override only for development in a scratch worktree
 SPEC = os.path.join(VERIF, "spec")
 OUT = os.path.join(VERIF, "out")
 EVID = os.path.join(VERIF, "evidence")
@@ -58,6 +58,8 @@ def build(modes=("engine",), verbose=False):
     try:
         t0 = time.time()
         cmd = ["make", "-C", os.path.join(VERIF, "harness"), "-j%d" % NCPU, "REPO=" + REPO] + list(targets)
+        if "HGV_BUILD" in os.environ:
+            cmd.append("B=" + BUILD)
         r = subprocess.run(cmd, capture_output=True, text=True)
         with open(os.path.join(BUILD, "make.log"), "w") as f:
             f.write(r.stdout + r.stderr)
